@@ -119,11 +119,21 @@ func Decode(r io.Reader, binaryFrame bool) (*Packet, error) {
 	return decode(buf, binaryFrame)
 }
 
-func DecodeWithLen(r io.Reader, binaryFrame bool, len int) (*Packet, error) {
-	buf := make([]byte, len)
-	_, err := io.ReadFull(r, buf)
+func DecodeWithLen(r io.Reader, binaryFrame bool, length int) (*Packet, error) {
+	if length < 0 {
+		return nil, errInvalidPacketSize
+	}
+	// Do not trust the declared length for the allocation:
+	// read up to `length` bytes and grow the buffer as data arrives.
+	buf, err := io.ReadAll(io.LimitReader(r, int64(length)))
 	if err != nil {
 		return nil, err
+	}
+	if len(buf) < length {
+		if len(buf) == 0 {
+			return nil, io.EOF
+		}
+		return nil, io.ErrUnexpectedEOF
 	}
 	return decode(buf, binaryFrame)
 }
